@@ -147,6 +147,8 @@ def c06_passes(tier, sc):
     return [Pass('asan', 'h_fits.asan', 'C06', n(tier, 240, 3000, sc)),
             # serialising a table with a history (permuted, convolved, re-read, moved ...) gives the bytes a freshly loaded equal table gives
             Pass('hist', 'h_misc.asan', 'C06hist', n(tier, 400, 4000, sc), stall_s=300),
+            # reading and writing with every fresh heap byte pre-filled with one of seven patterns: every observable result as with a clean heap
+            Pass('junk', 'h_junk.prod', 'C06junk', n(tier, 300, 3000, sc), stall_s=300),
             Pass('golden', 'h_fits.asan', 'C06golden', ng, args=['--golden', golden, '--datadir', _os.path.join(_B.REPO, 'test', 'test_data')], chunk=max(1, ng))]
 
 
@@ -157,8 +159,8 @@ PROPS['C06'] = dict(
                'compare equal and evaluate identically, on disk and in memory; (3) the bytes the library wrote are decoded by a cfitsio-free '
                'decoder that insists on the documented layout. Shipped reference files are compared with committed digests.',
     level_note=NOTE_COMMON,
-    technique='runtime monitor: independent FITS encoder/decoder + bitwise round-trip oracle + golden digests + history-independence differential (bytes written by a table with a random history vs. by its freshly loaded twin), under ASan/UBSan',
-    targets=[T('h_fits.cpp', 'asan'), T('h_misc.cpp', 'asan')],
+    technique='runtime monitor: independent FITS encoder/decoder + bitwise round-trip oracle + golden digests + history-independence differential (bytes written by a table with a random history vs. by its freshly loaded twin), under ASan/UBSan; uninitialised-memory independence by intervention (malloc/realloc interposed: identical results for seven fill patterns of fresh heap memory)',
+    targets=[T('h_fits.cpp', 'asan'), T('h_misc.cpp', 'asan'), T('h_junk.cpp', 'prod')],
     passes=c06_passes,
     level='exploration',
     rule='case = random table (1-9 dims, pairwise different axis lengths where possible, orders 0-5, special-value coefficients, random extents/periods, '
@@ -166,7 +168,7 @@ PROPS['C06'] = dict(
          'write->raw-decode; distinct_nontrivial counts distinct (table,backend) round trips plus shipped files',
     assumptions=ASSUME_COMMON + ['the cfitsio-free decoder implements the documented layout only (IMAGE extensions, BITPIX -32/-64)'],
     require={'any': {'roundtrips-disk': 50, 'roundtrips-memory': 50, 'layout-decodes': 150, 'independent-raw-files-read': 150, 'golden-files': 10,
-                     'tables-with-pairwise-different-axes': 100, 'hist:judged-serialisations': 300}},
+                     'tables-with-pairwise-different-axes': 100, 'hist:judged-serialisations': 300, 'runs-compared-with-the-clean-heap-run': 1500, 'files-without-EXTENTS': 40, 'files-without-PERIOD-keys': 40}},
 )
 
 
@@ -266,9 +268,11 @@ PROPS['C09'] = dict(
                'A third pass fits tables with more than 2^16 coefficients (2-d ~250x270, 3-d ~40^3; flattened matrix indices beyond 2^32), where the same residual is applied matrix-free, dimension by dimension. '
                'Smoothing and penalty order are passed in all four shared/per-dimension combinations.',
     level_note=NOTE_COMMON + '; problems whose oracle Cholesky pivot ratio is below 1e-9 are outside the quantifier ("well-posed") and skipped',
-    technique='runtime monitor: dense (small tables) and matrix-free (large tables) normal-equation oracle (backward-error test) under ASan/UBSan and in the production build',
-    targets=[T('h_fit.cpp', 'prod'), T('h_fit.cpp', 'asan')],
+    technique='runtime monitor: dense (small tables) and matrix-free (large tables) normal-equation oracle (backward-error test) under ASan/UBSan and in the production build; uninitialised-memory independence by intervention (malloc/realloc interposed: identical results for seven fill patterns of fresh heap memory)',
+    targets=[T('h_fit.cpp', 'prod'), T('h_fit.cpp', 'asan'), T('h_junk.cpp', 'prod')],
     passes=lambda tier, sc: [Pass('prod', 'h_fit.prod', 'C09', n(tier, 160, 2400, sc), stall_s=300),
+                             # the same fit with every fresh heap byte (C++ side, C fitter, CHOLMOD) pre-filled with one of five patterns: identical table
+                             Pass('junk', 'h_junk.prod', 'C09junk', n(tier, 160, 1600, sc), stall_s=600),
                              Pass('asan', 'h_fit.asan', 'C09', n(tier, 48, 400, sc), stall_s=600),
                              # tables with more than 2^16 coefficients (flattened matrix indices beyond 2^32); matrix-free residual oracle
                              Pass('large', 'h_fit.prod', 'C09big', n(tier, 3, 18, sc), chunk=1, stall_s=900)],
@@ -277,7 +281,7 @@ PROPS['C09'] = dict(
          'dense or 30-70% sparse grids, weights 1e-3..1e3, smoothing 0 or 1e-6..1e6, scalar or per-dimension arguments) x 3 entry-point variants; '
          'distinct_nontrivial counts distinct (problem, variant) fits on well-posed problems',
     assumptions=ASSUME_COMMON + ['bound K=8 on |Hc-r|/(2^-24(|H||c|+|r|)) (probe: worst 0.77 on 150 fits)'],
-    require={'any': {'problems-well-posed': 80, 'fits:C:splinetable_glamfit': 50, 'spline-reproduction-checks': 5, 'polynomial-reproduction-checks': 3, 'large:residual-checks': 3, 'argument-form:smoothing-shared,penalty-order-per-dimension': 8, 'argument-form:smoothing-per-dimension,penalty-order-shared': 8}},
+    require={'any': {'problems-well-posed': 80, 'fits:C:splinetable_glamfit': 50, 'spline-reproduction-checks': 5, 'polynomial-reproduction-checks': 3, 'large:residual-checks': 3, 'argument-form:smoothing-shared,penalty-order-per-dimension': 8, 'argument-form:smoothing-per-dimension,penalty-order-shared': 8, 'runs-compared-with-the-clean-heap-run': 600}},
 )
 PROPS['C10'] = dict(
     level_text='Exploration: monotonic fits of noisy, decreasing, oscillating, constant and random data in 1-3 dimensions for every choice of monotonic dimension; '
@@ -378,9 +382,10 @@ PROPS['C14'] = dict(
                'piecewise between all breakpoints with 8-point Gauss-Legendre (exact for the polynomial degrees involved) and compared with the evaluated convolved table at points across '
                'the new knot range incl. knots and margins; plus exact checks of the new order, the new knot vector (sorted pairwise sums), untouched other dimensions, well-formedness and the C wrapper.',
     level_note=NOTE_COMMON + '; bound K=400 on |lib-integral|/(2^-24 M) fixed from the measured error distribution (see errratio counters)',
-    technique='runtime monitor: quadrature oracle for the convolution integral + structural invariants, under ASan/UBSan; history-independence differential (convolution of a table with a random history vs. of its freshly loaded twin, bit for bit); concurrent independent convolutions compared with sequential ones, under ThreadSanitizer',
-    targets=[T('h_misc.cpp', 'asan'), T('h_misc.cpp', 'prod'), T('h_misc.cpp', 'tsan')],
-    passes=lambda tier, sc: [Pass('asan', 'h_misc.asan', 'C14', n(tier, 360, 1500, sc), stall_s=300),
+    technique='runtime monitor: quadrature oracle for the convolution integral + structural invariants, under ASan/UBSan; history-independence differential (convolution of a table with a random history vs. of its freshly loaded twin, bit for bit); concurrent independent convolutions compared with sequential ones, under ThreadSanitizer; uninitialised-memory independence by intervention (malloc/realloc interposed: identical results for seven fill patterns of fresh heap memory)',
+    targets=[T('h_misc.cpp', 'asan'), T('h_misc.cpp', 'prod'), T('h_misc.cpp', 'tsan'), T('h_junk.cpp', 'prod')],
+    passes=lambda tier, sc: [Pass('junk', 'h_junk.prod', 'C14junk', n(tier, 200, 2000, sc), stall_s=300),
+                             Pass('asan', 'h_misc.asan', 'C14', n(tier, 360, 1500, sc), stall_s=300),
                              Pass('prod', 'h_misc.prod', 'C14', n(tier, 900, 3000, sc), stall_s=300),
                              # four threads convolving their own tables at once: same result as sequentially (prod) and no report from ThreadSanitizer
                              Pass('thr', 'h_misc.prod', 'C14thr', n(tier, 200, 1500, sc), stall_s=300),
@@ -391,37 +396,39 @@ PROPS['C14'] = dict(
     rule='case = (table of 1-4 dims, order 0-5 in the convolved dimension, any dimension index, irregular knots, kernel of 2-6 increasing knots, symmetric or not, 0.05x-5x the knot spacing) x 10-60 points; '
          'distinct_nontrivial counts distinct (table, kernel, point) triples with M>0',
     assumptions=ASSUME_COMMON,
-    require={'any': {'points-checked': 1500, 'C-wrapper-comparisons': 100, 'order:0': 5, 'order:5': 5, 'concurrent-convolution-rounds': 150, 'axis-unit:1e-09': 20, 'aliasing-kernel-comparisons': 40, 'hist:judged-convolutions': 200}},
+    require={'any': {'points-checked': 1500, 'C-wrapper-comparisons': 100, 'order:0': 5, 'order:5': 5, 'concurrent-convolution-rounds': 150, 'axis-unit:1e-09': 20, 'aliasing-kernel-comparisons': 40, 'hist:judged-convolutions': 200, 'runs-compared-with-the-clean-heap-run': 1000}},
 )
 PROPS['C15'] = dict(
     level_text='Exhaustive over all 153 permutations of 1-5 dimensions (plus sampled 6-d ones) on tables whose axes have pairwise different lengths, orders, extents and periods: every per-dimension attribute, '
                'exact relocation of every coefficient, stride consistency, evaluation at permuted points against the reference, restoration by the inverse permutation, rejection of every malformed-argument shape '
                'with the table unchanged, and the C wrapper.',
     level_note=NOTE_COMMON,
-    technique='runtime monitor: exhaustive permutation enumeration (<=5 dims) with exact relocation oracle, plus history-independence differential (permutation of a table with a random history vs. of its freshly loaded twin, bit for bit), under ASan/UBSan',
-    targets=[T('h_misc.cpp', 'asan')],
-    passes=lambda tier, sc: [Pass('asan', 'h_misc.asan', 'C15', 153 + n(tier, 300, 1200, sc), stall_s=300),
+    technique='runtime monitor: exhaustive permutation enumeration (<=5 dims) with exact relocation oracle, plus history-independence differential (permutation of a table with a random history vs. of its freshly loaded twin, bit for bit), under ASan/UBSan; uninitialised-memory independence by intervention (malloc/realloc interposed: identical results for seven fill patterns of fresh heap memory)',
+    targets=[T('h_misc.cpp', 'asan'), T('h_junk.cpp', 'prod')],
+    passes=lambda tier, sc: [Pass('junk', 'h_junk.prod', 'C15junk', n(tier, 200, 2000, sc), stall_s=300),
+                             Pass('asan', 'h_misc.asan', 'C15', 153 + n(tier, 300, 1200, sc), stall_s=300),
                              # permuting a table with a history = permuting a freshly loaded equal table, bit for bit (incl. extents, periods, strides, aux keys, evaluation)
                              Pass('hist', 'h_misc.asan', 'C15hist', n(tier, 600, 6000, sc), stall_s=300)],
     level='exploration',
     rule='case = one permutation (cases 0..152 enumerate all permutations of 1..5 dimensions, the rest are random 6-d permutations) applied to a fresh table; distinct_nontrivial counts distinct permutations',
     assumptions=ASSUME_COMMON,
-    require={'any': {'permutations': 153, 'inverse-checks': 153, 'malformed-arguments-tried': 800, 'C-wrapper-comparisons': 153, 'hist:judged-permutations': 400}},
+    require={'any': {'permutations': 153, 'inverse-checks': 153, 'malformed-arguments-tried': 800, 'C-wrapper-comparisons': 153, 'hist:judged-permutations': 400, 'runs-compared-with-the-clean-heap-run': 1000}},
 )
 PROPS['C17'] = dict(
     level_text='Exploration: grid evaluation of sparse-coefficient tables (50-95% exact zeros, whole zero edge hyperplanes) on arbitrary grids (unsorted, repeated, outside, on-knot, single-point axes) compared entry by entry '
                'with pointwise evaluation and with the long-double reference (so a disagreement is attributed to the side that is wrong); index ranges, index bounds, duplicates and unlisted points are checked; C wrapper compared bitwise.',
     level_note=NOTE_COMMON,
-    technique='runtime differential monitor (grid vs pointwise vs reference), under ASan/UBSan; history-independence differential (grid evaluation of a table with a random history vs. of its freshly loaded twin); concurrent independent grid evaluations compared with sequential ones, under ThreadSanitizer',
-    targets=[T('h_misc.cpp', 'asan'), T('h_misc.cpp', 'prod'), T('h_misc.cpp', 'tsan')],
-    passes=lambda tier, sc: [Pass('asan', 'h_misc.asan', 'C17', n(tier, 3000, 12000, sc), stall_s=300),
+    technique='runtime differential monitor (grid vs pointwise vs reference), under ASan/UBSan; history-independence differential (grid evaluation of a table with a random history vs. of its freshly loaded twin); concurrent independent grid evaluations compared with sequential ones, under ThreadSanitizer; uninitialised-memory independence by intervention (malloc/realloc interposed: identical results for seven fill patterns of fresh heap memory)',
+    targets=[T('h_misc.cpp', 'asan'), T('h_misc.cpp', 'prod'), T('h_misc.cpp', 'tsan'), T('h_junk.cpp', 'prod')],
+    passes=lambda tier, sc: [Pass('junk', 'h_junk.prod', 'C17junk', n(tier, 200, 2000, sc), stall_s=300),
+                             Pass('asan', 'h_misc.asan', 'C17', n(tier, 3000, 12000, sc), stall_s=300),
                              Pass('thr', 'h_misc.prod', 'C17thr', n(tier, 200, 1500, sc), stall_s=300),
                              Pass('hist', 'h_misc.asan', 'C17hist', n(tier, 400, 4000, sc), stall_s=300),
                              c17_tsan(tier, sc)],
     level='exploration',
     rule='case = (sparse table of 1-4 dims with mixed orders 0-4 and repeated knots, grid) ; every grid point strictly inside the knot range is judged; distinct_nontrivial counts distinct (table, grid point) pairs judged',
     assumptions=ASSUME_COMMON,
-    require={'any': {'grid-points-checked': 3000, 'grid-points-unlisted': 100, 'tables-with-zero-edge-hyperplanes': 50, 'C-wrapper-comparisons': 200, 'concurrent-grideval-rounds': 150, 'long-grids': 5, 'tables-with-all-coefficients-zero': 30, 'hist:judged-grid-evaluations': 300}},
+    require={'any': {'grid-points-checked': 3000, 'grid-points-unlisted': 100, 'tables-with-zero-edge-hyperplanes': 50, 'C-wrapper-comparisons': 200, 'concurrent-grideval-rounds': 150, 'long-grids': 5, 'tables-with-all-coefficients-zero': 30, 'hist:judged-grid-evaluations': 300, 'runs-compared-with-the-clean-heap-run': 1000}},
 )
 
 
